@@ -232,7 +232,8 @@ def run_case(case, seed):
         s0 = snap(T)
         key = 'pinv' + (':ow' if ow else '')
         with r.op(key + ':call'):
-            P = T.pinv(idx, threshold=thr, ortho_l=ol, ortho_r=orr, overwrite=ow)
+            # (flags passed positionally when nothing is overwritten: index, threshold, ortho_l, ortho_r is the documented order)
+            P = T.pinv(idx, threshold=thr, ortho_l=ol, ortho_r=orr, overwrite=ow) if ow else T.pinv(idx, thr, ol, orr)
             mp = meta_problem(P)
             if r.true(key + ':meta', mp is None, mp) and r.true(key + ':dims', list(P.row_dims) == rows and
                                                                list(P.col_dims) == [1] * d):
